@@ -228,19 +228,21 @@ Theorem c28_refuted_duplicate_import : forall (G : Type) (smul : N -> G) (encode
 Proof. exact dup_import_refuted. Qed.
 Print Assumptions c28_refuted_duplicate_import.
 
-(* FINDING (outside whole operations): ResetPassword does not hold the HSM lock between reading
-   and writing the key file.  ResetPassword reads the file (correct password), UpdateKeyAlias
-   renames the key, ResetPassword writes the file back with the alias it read: afterwards NO
-   password opens the key (the file's alias is not the cache's alias).  For every stored key
-   and all primitives. *)
-Theorem c28_refuted_reset_alias_race : forall (G : Type) (smul : N -> G) (encode : G -> bytes) kdf ctr mac_hash,
-  (forall k iv n, length (ctr k iv n) = n) ->
-  forall g na new salt iv, wf64 (g_key g) -> na <> g_alias g ->
-  let st := [realize G smul encode kdf ctr mac_hash g] in
-  let xp := g_xpub G smul encode g in
-  exists l st1,
-    reset_begin kdf ctr mac_hash st xp (g_pw g) = SOk l /\
-    s_alias st xp na = SOk st1 /\
-    forall pw, s_load kdf ctr mac_hash (reset_finish kdf ctr mac_hash st1 xp l new salt iv) xp pw = SErr SELoad.
-Proof. exact reset_alias_race_refuted. Qed.
-Print Assumptions c28_refuted_reset_alias_race.
+(* ResetPassword / UpdateKeyAlias / XSign of one key from several goroutines.  Each of these
+   operations (and XCreate, ImportKeyFromMnemonic, LoadChainKDKey, Restore) runs entirely under
+   the HSM lock cacheMu (ResetPassword since the repair e8f4d605), so however the callers
+   interleave, the store sees a sequence of WHOLE operations; for every such sequence
+   c28_store_refines gives the book's files and answers, c28_store_holds_outside gives "XSign with
+   the current password succeeds and signs as the xprv", and the theorem below gives "the alias in
+   the key file is the alias the cache holds" (the invariant whose failure made XSign refuse the
+   correct password in the pinned tree).  No guard, every sequence, any number of stores.
+   The pinned tree's two-step ResetPassword and its witness are kept in C28/History.v
+   (pinned_refuted_reset_alias_race); they say nothing about the current code.  The harness class
+   keystore-reset-alias-race (two goroutines ResetPassword / UpdateKeyAlias, a third signing) is
+   the regression test of the repair. *)
+Theorem c28_store_alias_consistent : forall (G : Type) (smul : N -> G) (encode : G -> bytes) kdf ctr mac_hash,
+  (forall k iv n, length (ctr k iv n) = n) -> mac_ideal kdf mac_hash ->
+  forall ops sid e,
+    In e (getst (fst (run G smul encode kdf ctr mac_hash [] ops)) sid) -> kf_alias (se_kf e) = se_alias e.
+Proof. exact alias_consistent. Qed.
+Print Assumptions c28_store_alias_consistent.
